@@ -137,3 +137,21 @@ Theorem C06_end_block : forall cfg s dt r q,
     /\ In p (c_provs rc) /\ eligible sx rc p = Some price /\ 0 <= r_fee q <= c_cap rc.
 Proof. exact StepSpecs_batch_block.C06_end_block. Qed.
 Print Assumptions C06_end_block.
+
+(* conversely, what an EndBlock leaves of a context c that is due for a new batch after the
+   expiry phase: its record and its request records are exactly those produced by the handler
+   of c (C06_batch_spec) from an intermediate state s1 that satisfies the invariant and shows
+   the same context record, bindings, prices, volumes and time as the post-expiry state sx;
+   only the bank of s1 may differ, by the debits of the contexts handled before c *)
+Theorem C06_end_block_handler : forall cfg s dt c,
+  wf_cfg cfg -> Inv cfg s -> height s < HEIGHT_BOUND ->
+  let sx := fold_left (expire_one cfg) (due (expq s) (height s)) s in
+  let sf := end_block cfg s dt in
+  In (height s, c) (newq sx) ->
+  exists s1, Inv cfg s1 /\ In (height s1, c) (newq s1) /\ height s1 = height s
+    /\ time s1 = time sx /\ binds s1 = binds sx /\ pricing s1 = pricing sx /\ vols s1 = vols sx
+    /\ get c (ctxs s1) = get c (ctxs sx)
+    /\ (forall r, rid_ctx r = c -> get r (reqs sf) = get r (reqs (new_one cfg s1 c)))
+    /\ get c (ctxs sf) = get c (ctxs (new_one cfg s1 c)).
+Proof. exact StepSpecs_batch_block.C06_end_block_handler. Qed.
+Print Assumptions C06_end_block_handler.
